@@ -38,7 +38,8 @@ def gen_case(rng):
         # composite keys whose naive concatenation is ambiguous: ('a|b','') vs ('a','b|'), (1,23) vs (12,3)
         if rng.random() < 0.6:
             kkinds = ["str"] * nk
-            pools = [["a|b", "a", "a|"], ["", "b|", "b", "|b"]] + [["x", ""]] * (nk - 2)
+            sep = rng.choice(["|", "|", "\x1f", "\x00", ",", " ", "_", "-", "\t", "/"])
+            pools = [["a" + sep + "b", "a", "a" + sep], ["", "b" + sep, "b", sep + "b"]] + [["x", ""]] * (nk - 2)
         else:
             kkinds = ["int"] * nk
             pools = [[1, 12, 0], [23, 3, 123]] + [[7]] * (nk - 2)
@@ -88,6 +89,9 @@ def gen_case(rng):
             vals[j] = None if rng.random() < 0.1 else V.pick_value(rng, kd, 0.0)
         return V.enc_list(vals)
 
+    if not wide and all(k in ("int", "str") for k in kkinds) and rng.random() < 0.008:
+        # one side longer than 2**16 rows: filler rows (keys that match nothing) in front of the real ones
+        meta["pad"] = {"side": rng.choice(["r", "r", "l"]), "n": rng.choice([65536, 65537, 70001])}
     trace = [meta]
     for _ in range(nl):
         trace.append({"op": "lrow", "v": row(lpos, lpay, nk + len(lpay))})
@@ -101,6 +105,21 @@ def build(trace):
     meta = trace[0]
     lrows = [V.dec_list(r["v"]) for r in trace[1:] if r["op"] == "lrow"]
     rrows = [V.dec_list(r["v"]) for r in trace[1:] if r["op"] == "rrow"]
+
+    pad = meta.get("pad")
+    if pad:
+        pos = meta["lpos"] if pad["side"] == "l" else meta["rpos"]
+        width = len(meta["lnames"] if pad["side"] == "l" else meta["rnames"])
+        filler = []
+        for i in range(pad["n"]):
+            r = [None] * width
+            for c, j in enumerate(pos):
+                r[j] = (100000 + i) if meta["kkinds"][c] == "int" else "p%d" % i
+            filler.append(r)
+        if pad["side"] == "l":
+            lrows = filler + lrows
+        else:
+            rrows = filler + rrows
 
     def table(names, rows):
         cols = [S.Vector([r[j] for r in rows], name=nm) for j, nm in enumerate(names)]
